@@ -113,6 +113,53 @@ def unit_force(U):
                     U.prove(base + ".fresh#p%d" % p.index, text, [], z3.BoolVal(bool(ok)), {}, replay=replay)
 
 
+def _replay_empty(kind):
+    """an existing database and a new input WITHOUT any feature (empty text / comments and directives only / empty list),
+    force=False: the call must fail and the file must stay byte-identical"""
+    import tempfile, os, shutil
+    d = tempfile.mkdtemp()
+    try:
+        dbfn = os.path.join(d, "x.db")
+        old = "##gff-version 3\nold\t.\tgene\t1\t5\t.\t+\t.\tID=oldgene\n"
+        gffutils.create_db(old, dbfn, from_string=True).conn.close()
+        before = open(dbfn, "rb").read()
+        new = {"empty-string": ("", True), "comments-only": ("# nothing here\n##gff-version 3\n\n", True), "empty-list": ([], False)}[kind]
+        try:
+            gffutils.create_db(new[0], dbfn, from_string=new[1])
+            raised = False
+        except Exception as e:
+            raised = type(e).__name__
+        same = os.path.exists(dbfn) and open(dbfn, "rb").read() == before
+        return {"inputs": {"existing database": "one gene", "new input": kind, "force": False}, "expected": "raises, file unchanged", "observed": "raised=%s, file unchanged=%s" % (raised, same),
+                "violates": (not raised) or not same}
+    finally:
+        shutil.rmtree(d, ignore_errors=True)
+
+
+def unit_force_empty(U):
+    """the refusal also holds when the NEW input has no feature line at all (only comments / directives / blank lines): the
+    call raises and the existing file is neither unlinked nor written to"""
+    for kinds in ("C", "D", "CDB"):
+        it = Interp()
+        run = PL.run_create_db(it, kinds, 1, existing_db=True, force=False)
+        base = "C19.create_db[force=False,existing=True,input=%s]" % kinds
+
+        def replay(m):
+            last = None
+            for kind in ("empty-string", "comments-only", "empty-list"):
+                last = _replay_empty(kind)
+                if last.get("violates"):
+                    return last
+            return last
+        for p in U.explore(run, it):
+            effs = p.ctx.effects
+            unlinks = [e for e in effs if e[0] == "unlink" and e[1] == "/ghost/out.db"]
+            cls = IM.classify([e for e in effs if e[0] in ("execute", "executemany", "executescript")])
+            rows = [c for c in cls if c.kind in ("insert", "update", "delete")]
+            ok = p.kind == "raise" and not unlinks and not rows
+            U.prove(base + ".refuse#p%d" % p.index, "existing database, force=False, no feature in the new input ==> raises; the file is not unlinked; no row is written", [], z3.BoolVal(bool(ok)), {}, replay=replay)
+
+
 def _row_conn(ctx, rows=1):
     made = []
 
@@ -246,7 +293,7 @@ def unit_fresh_iterator(U):
     C13.unit_init_state(U, prefix="C19.input")
 
 
-UNITS = [("force", unit_force), ("frame", unit_frame), ("fresh_iterator", unit_fresh_iterator)]
+UNITS = [("force", unit_force), ("force_empty", unit_force_empty), ("frame", unit_frame), ("fresh_iterator", unit_fresh_iterator)]
 try:
     from standins import C19 as _S
     UNITS = UNITS + list(_S.UNITS)
